@@ -8,14 +8,16 @@ set -u
 WT="$1"; SD="$2"; MOD="$3"; MODE="${4:-unit}"
 cd "$WT" || exit 2
 place_demo() {
-  if [ "$MODE" = "integ" ]; then cp "$SD/demo.rs" starlark/tests/$MOD.rs; else cp "$SD/demo.rs" starlark/src/tests/$MOD.rs; echo "mod $MOD;" >> starlark/src/tests.rs; fi
+  if [ "$MODE" = "integ" ]; then mkdir -p starlark/tests; cp "$SD/demo.rs" starlark/tests/$MOD.rs; else cp "$SD/demo.rs" starlark/src/tests/$MOD.rs; echo "mod $MOD;" >> starlark/src/tests.rs; fi
 }
 run_demo() {
   if [ "$MODE" = "integ" ]; then cargo test -p starlark --test $MOD --offline -j 8; else cargo test -p starlark --lib --offline -j 8 $MOD; fi
 }
 git checkout -q -- . ; git clean -fdq -e target
 git apply "$SD/patch.diff" || { echo "CONFIRM patch does not apply"; exit 2; }
+if [ "${SKIP_SUITE:-0}" != "1" ] || [ ! -f "$SD/confirm_patched_suite.log" ]; then
 cargo test -p starlark --lib --offline -j 8 > "$SD/confirm_patched_suite.log" 2>&1
+fi
 SUITE=$(grep -E "^test result" "$SD/confirm_patched_suite.log" | tail -1)
 place_demo
 run_demo > "$SD/confirm_patched_demo.log" 2>&1
